@@ -1,3 +1,4 @@
+import Varpulis.Model.Zdd
 /-!
 # M-SASE — the SASE+ pattern matcher (crates/varpulis-runtime/src/sase.rs), sequence fragment
 
@@ -193,6 +194,8 @@ structure Run where
 structure Cfg where
   maxRuns : Nat := 10000
   maxKleene : Nat := 20
+  /-- `MAX_ENUMERATION_RESULTS` / `with_max_enumeration_results` -/
+  maxResults : Nat := 10000
   deriving Repr, Inhabited
 
 /-- `Run::push` / `push_at` / `push_at_kleene`: bind the alias (overwriting), push the entry. -/
@@ -374,6 +377,113 @@ def runAll (p : Pat) (cfg : Cfg) (evs : List Event) : Eng × List (Event × List
 /-- all matches emitted on a stream. -/
 def matchesOf (p : Pat) (cfg : Cfg) (evs : List Event) : List Match :=
   ((runAll p cfg evs).2.map (·.2)).flatten
+
+/-! ## Deferred enumeration — `complete_run` → `enumerate_with_filter` for a self-referencing `all` filter
+on a non-last step
+
+The Kleene capture is created at the first `all` step the run enters; when that step's filter was postponed
+and the step is not the last one, `complete_run` reports one match per admissible combination of the kept
+events instead of the run's own match. In the fragment modelled here (`Pat.deferredOK`: exactly one `all`
+step, not first, not last) the kept events are the entries of that step's group in the stack, and the ZDD
+handle after `k` `extend`s is `kleeneHandle k` (Model/Zdd.lean; full powerset, C03/C06). `expand` is applied
+to every completed run's match (`stepEngine` itself is unchanged). -/
+
+/-- `extract_ref_alias` -/
+def extractRefAlias : Pred → Option String
+  | .cmp .. => none
+  | .cmpRef _ _ a _ => some a
+  | .and l r => (extractRefAlias l).or (extractRefAlias r)
+  | .or l r => (extractRefAlias l).or (extractRefAlias r)
+  | .not q => extractRefAlias q
+
+/-- aliases a predicate refers to -/
+def Pred.refs : Pred → List String
+  | .cmp .. => []
+  | .cmpRef _ _ a _ => [a]
+  | .and l r => l.refs ++ r.refs
+  | .or l r => l.refs ++ r.refs
+  | .not q => q.refs
+
+def optRefs (o : Option Pred) : List String := match o with | some q => q.refs | none => []
+
+/-- first `all` step from position `i` on -/
+def firstKleene : List Step → Nat → Option (Nat × Step)
+  | [], _ => none
+  | s :: rest, i => if s.kleene then some (i, s) else firstKleene rest (i + 1)
+
+/-- the step whose capture carries a `deferred_predicate`: the first `all` step, if its filter is postponed
+and it is not the last step -/
+def Pat.deferredStep (p : Pat) : Option (Nat × Step × Pred) :=
+  match firstKleene p.steps 0 with
+  | some (i, s) =>
+    (match s.postponed with
+     | some q => if i + 1 < p.steps.length then some (i, s, q) else none
+     | none => none)
+  | none => none
+
+/-- `captured.insert(alias, event)` for an optional alias -/
+def bindOpt (a : Option String) (e : Event) (c : Caps) : Caps :=
+  match a with | some a => (a, e) :: c | none => c
+
+/-- `evaluate_deferred_predicate`: every consecutive pair `(prev, cur)` must satisfy the predicate on `cur`
+with `prev` bound to `alias` on top of the run's captures -/
+def evalDeferred (q : Pred) (alias : Option String) (caps : Caps) : List Event → Bool
+  | prev :: cur :: rest => evalPred q cur (bindOpt alias prev caps) && evalDeferred q alias caps (cur :: rest)
+  | _ => true
+
+/-- the ZDD handle of a capture after `k` calls of `KleeneCapture::extend` -/
+def kleeneHandle (k : Nat) : Varpulis.Zdd.Z := (List.range k).foldl (fun z v => Varpulis.Zdd.pwo z v) .base
+
+/-- entries selected by an index set (`iter_combinations`) -/
+def pickEntries (kept : List Entry) (idxs : List Nat) : List Entry := idxs.filterMap (kept[·]?)
+
+/-- the accepted combinations, in ZDD iteration order, cut at `max_results` -/
+def combosOf (cfg : Cfg) (q : Pred) (caps : Caps) (kept : List Entry) : List (List Entry) :=
+  (((Varpulis.Zdd.sets (kleeneHandle kept.length)).map (pickEntries kept)).filter fun es =>
+      !es.isEmpty &&
+      evalDeferred q ((es.head?.bind (·.alias)).or (extractRefAlias q)) caps (es.map (·.ev))).take (max cfg.maxResults 1)
+
+/-- the group of step `i` in a completed stack (all other steps hold exactly one entry) -/
+def groupOf (p : Pat) (i : Nat) (stack : List Entry) : List Entry :=
+  (stack.drop i).take (stack.length + 1 - p.steps.length)
+
+/-- `complete_run`: `enumerate_with_filter` when the capture has a deferred predicate, else the run's match.
+The reported stack is the run's whole stack (`rebuild_stack_with_combination` keeps it), the captures are the
+run's captures overlaid with the combination's entries. -/
+def expand (p : Pat) (cfg : Cfg) (m : Match) : List Match :=
+  match p.deferredStep with
+  | none => [m]
+  | some (i, _, q) =>
+    let kept := if cfg.maxKleene = 0 then [] else groupOf p i m.stack
+    (combosOf cfg q m.caps kept).map fun es => ⟨m.stack, es.foldl (fun c en => bindOpt en.alias en.ev c) m.caps⟩
+
+/-- `process_shared` including the enumeration at completion -/
+def stepEngineK (p : Pat) (cfg : Cfg) (s : Eng) (e : Event) : Eng × List Match :=
+  ((stepEngine p cfg s e).1, (stepEngine p cfg s e).2.flatMap (expand p cfg))
+
+def runFromK (p : Pat) (cfg : Cfg) (s : Eng) : List Event → Eng × List (Event × List Match)
+  | [] => (s, [])
+  | e :: es =>
+    ((runFromK p cfg (stepEngineK p cfg s e).1 es).1, (e, (stepEngineK p cfg s e).2) :: (runFromK p cfg (stepEngineK p cfg s e).1 es).2)
+
+/-- all matches emitted on a stream, enumeration included -/
+def matchesOfK (p : Pat) (cfg : Cfg) (evs : List Event) : List Match :=
+  (((runFromK p cfg Eng.init evs).2.map (·.2)).flatten)
+
+/-- the second fragment: exactly one `all` step, neither first nor last, with a self-referencing filter;
+the filter does not mention aliases of later steps; later filters and `.not` clauses do not mention the
+`all` step's alias (they are evaluated against the *last accumulated* event, not the combination's). -/
+def Pat.deferredOK (p : Pat) : Bool :=
+  match p.deferredStep with
+  | some (i, s, q) =>
+    decide (0 < i) && (p.steps.filter (·.kleene)).length == 1 &&
+    (p.steps.drop (i + 1)).all (fun t => (match t.alias with | some a => !q.refs.contains a | none => true) &&
+                                        (match s.alias with | some b => !(optRefs t.pred).contains b | none => true)) &&
+    p.negs.all (fun n => match s.alias with | some b => !(optRefs n.pred).contains b | none => true)
+  | none => false
+
+/-- the fragment of the extended C01 theorem -/
+def Pat.inFragmentK (p : Pat) : Bool := p.inFragment || p.deferredOK
 
 /-! ## NFA level — `NfaCompiler::compile` and the generic interpreter `advance_run_shared`
 
@@ -571,6 +681,36 @@ def Genuine (p : Pat) (evs : List Event) (m : Match) : Bool :=
   && noNegBetween p evs m.stack
   -- the reported captures are those of the stack
   && m.caps == capsOf m.stack
+
+/-! ### `GenuineK`: C01 for matches that come out of the enumeration -/
+
+/-- the two capture maps agree on every alias -/
+def capsEquiv (c1 c2 : Caps) : Bool := ((c1 ++ c2).map (·.1)).all fun a => c1.lookup a == c2.lookup a
+
+/-- the clauses of `Genuine` that speak about the events of the match -/
+def GenuineCore (p : Pat) (evs : List Event) (st : List Entry) : Bool :=
+  (st.map (·.ev)).isSublist evs
+  && explains p.steps false [] st
+  && (match st with | [] => false | en :: rest => rest.all fun x => keyOf p x.ev == keyOf p en.ev)
+  && noNegBetween p evs st
+
+/-- all subsequences -/
+def subseqs {α} : List α → List (List α)
+  | [] => [[]]
+  | x :: xs => (subseqs xs).map (x :: ·) ++ subseqs xs
+
+/-- the event lists an enumerated match may stand for: the reported stack with the enumerated step's group
+replaced by one of its subsequences (the combination itself is not part of `MatchResult`) -/
+def candidates (p : Pat) (stack : List Entry) : List (List Entry) :=
+  match p.deferredStep with
+  | none => [stack]
+  | some (i, _, _) =>
+    (subseqs (groupOf p i stack)).map fun es => stack.take i ++ es ++ stack.drop (i + (groupOf p i stack).length)
+
+/-- **C01 for the extended fragment**: the reported match stands for a genuine occurrence — some candidate
+event list is genuine and determines exactly the reported captures. -/
+def GenuineK (p : Pat) (evs : List Event) (m : Match) : Bool :=
+  (candidates p m.stack).any fun st => GenuineCore p evs st && capsEquiv m.caps (capsOf st)
 
 /-! ## C02 — `Spec.earliest`, reference earliest-continuation semantics -/
 
